@@ -206,12 +206,19 @@ func backendConns() int {
 }
 
 // ravenGoroutines counts goroutines currently inside the services' connection code
+// mutesAttached: the silent SASL clients of muteSASL are still attached (their handlers wait, as they should, for the
+// real 30 s read deadline while the rest of the check runs); their goroutines are judged by muteSASL's own verdict
+var mutesAttached bool
+
 func ravenGoroutines() (int, string) {
 	buf := make([]byte, 1<<22)
 	n := runtime.Stack(buf, true)
 	cnt := 0
 	sample := ""
 	for _, g := range strings.Split(string(buf[:n]), "\n\n") {
+		if mutesAttached && strings.Contains(g, "sasl.(*Server).handleConnection") && !strings.Contains(g, "raven/internal/server") && !strings.Contains(g, "lmtp.(*Session)") {
+			continue
+		}
 		if strings.Contains(g, "raven/internal/server.") || strings.Contains(g, "raven/internal/server/") || strings.Contains(g, "lmtp.(*Session)") || strings.Contains(g, "sasl.(*Server).handleConnection") {
 			cnt++
 			if sample == "" {
@@ -399,8 +406,15 @@ func main() {
 			}
 		}
 		// goroutines and database handles after everything has ended
-		time.Sleep(200 * time.Millisecond)
-		if n, g := ravenGoroutines(); n != 0 {
+		var n int
+		var g string
+		for i := 0; i < 30; i++ { // up to 3 s for the last handlers to return (a loaded machine schedules them late)
+			time.Sleep(100 * time.Millisecond)
+			if n, g = ravenGoroutines(); n == 0 {
+				break
+			}
+		}
+		if n != 0 {
 			rep.Violate("impl-violation", "goroutines released", fmt.Sprintf("%d goroutines are still inside service code after every session has ended: %s", n, g), nil)
 		}
 		if st := w.Mgr.GetSharedDB().Stats(); st.InUse != 0 {
@@ -430,6 +444,19 @@ func main() {
 
 	if muteDone != nil {
 		muteDone()
+		mutesAttached = false
+		// now that the silent clients have been dropped, nothing at all may be left inside service code
+		gone := false
+		var n int
+		var g string
+		for i := 0; i < 20 && !gone; i++ {
+			time.Sleep(100 * time.Millisecond)
+			n, g = ravenGoroutines()
+			gone = n == 0
+		}
+		if !gone {
+			rep.Violate("impl-violation", "goroutines released", fmt.Sprintf("%d goroutines are still inside service code after every session has ended and every silent SASL client has been dropped: %s", n, g), nil)
+		}
 	}
 	if len(ops) > 0 {
 		ans, err := hx.RunModel(o.Driver, ops)
@@ -561,6 +588,7 @@ func muteSASL(w *world.World, dir string, rep *hx.Report, skip bool) func() {
 	}
 	var ms []*mute
 	t0 := time.Now()
+	mutesAttached = true
 	for _, pre := range []struct{ what, send string }{{"a client that never sends anything", ""}, {"a client that sent half a line", "VERSION\t1"}, {"a client that went silent after VERSION", "VERSION\t1\t2\n"}} {
 		c, err := net.Dial("unix", sock)
 		if err != nil {
